@@ -246,7 +246,7 @@ def c_from_residual(ex, st, callee, a):
 @contract(r'^<impl Into<Option<', r'^<&str as Into<&str>>::into$', r'^must_use::<', r'^<str as ToOwned>::to_owned$',
           r'^<Vec<u8> as Deref(Mut)?>::deref(_mut)?$', r'^<\[u8\] as AsRef<\[u8\]>>::as_ref$', r'^<&\[u8; \d+\] as (AsRef|Into|Deref|IntoIterator)',
           r'^<GenericArray<.*> as Deref>::deref$', r'^<\[u8; \d+\] as AsRef<\[u8\]>>::as_ref$', r'^<&(mut )?\[u8(; \d+)?\] as Into<&(mut )?GenericArray<',
-          r'^<Vec<u8> as AsRef<\[u8\]>>::as_ref$', r'^Vec::<u8>::as_slice$', r'^Vec::<u8>::as_mut_slice$', r'^<GenericArray<u8, .*> as AsRef<\[u8\]>>::as_ref$', r'^<std::string::String as Deref>::deref$', r'^<std::string::String as AsRef<str>>::as_ref$',
+          r'^<Vec<u8> as AsRef<\[u8\]>>::as_ref$', r'^Vec::<u8>::as_slice$', r'^Vec::<u8>::as_mut_slice$', r'^GenericArray::<u8, .*>::as_slice$', r'^GenericArray::<u8, .*>::as_mut_slice$', r'^<GenericArray<u8, .*> as AsRef<\[u8\]>>::as_ref$', r'^<std::string::String as Deref>::deref$', r'^<std::string::String as AsRef<str>>::as_ref$',
           r'^(?:std::string::)?String::as_str$', r'^<&str as AsRef<str>>::as_ref$', r'^<str as AsRef<str>>::as_ref$', r'^<std::string::String as Clone>::clone$',
           r'^<std::string::String as From<&str>>::from$', r'^<&str as Into<std::string::String>>::into$', r'^<str as ToString>::to_string$',
           r'^<std::string::String as ToString>::to_string$', r'^<std::string::String as Into<std::string::String>>::into$',
